@@ -250,6 +250,9 @@ REFUSALS = [
     ("too_few_args", "{F}(j.pt())", False), ("too_many_args", "{F}(j.pt(), j.eta(), j.phi())", False), ("no_args", "{F}()", False),
     ("function_called_as_method", "j.{F}(j.pt(), j.eta())", False), ("method_called_as_function", "{M}(j.pt())", True),
     ("method_too_many_args", "j.{M}(1.0, 2.0)", True), ("deltaR_too_few", "DeltaR(j.eta(), j.phi())", False),
+    # a specification that names an instance type but no method object cannot bind a receiver: calling it like a method would drop `j`
+    ("instance_only_spec_called_as_method", "j.IOnly(2.0)", True), ("deltaR_too_many", "DeltaR(j.eta(), j.phi(), 1.0, 2.0, 3.0)", False),
+    ("builtin_method_too_many_args", "j.getAttributeFloat('a', 'b')", False),
 ]
 
 
@@ -279,11 +282,20 @@ def run(ctx: Ctx) -> int:
                      "return_type": ("const " + sub + "*") if backend == "atlas" else sub, "return_is_collection": True},
                     {"metadata_type": "add_cpp_function", "name": "Doubled", "include_files": ["vector"], "arguments": ["jet", "f"],
                      "code": ["std::vector<double> result;", f"for (auto v : jet{'->' if backend == 'atlas' else '.'}trkPts()) result.push_back(v * f);"], "return_type": "double", "return_is_collection": True}]
-        cg = {"GoodTracks": lambda j: j.tracks(), "Doubled": lambda j, f: j.trkPts().Select(lambda v: v * f)}
+        # element type spelled with a pointer INSIDE template arguments (the type itself is a value)
+        coll_fns.append({"metadata_type": "add_cpp_function", "name": "PairColl", "include_files": ["vector", "utility"], "arguments": ["jet"],
+                         "code": ["std::vector<std::pair<const double*, double>> result;",
+                                  f"for (auto v : jet{'->' if backend == 'atlas' else '.'}trkPts()) result.push_back(std::make_pair((const double*)0, v * 2.0));"],
+                         "return_type": "std::pair<const double*, double>", "return_is_collection": True})
+        from ..refrt import AttrDict
+        cg = {"GoodTracks": lambda j: j.tracks(), "Doubled": lambda j, f: j.trkPts().Select(lambda v: v * f),
+              "PairColl": lambda j: j.trkPts().Select(lambda v: AttrDict(second=v * 2.0))}
         for q in (f"ds.Select(lambda e: e.{C}('A').Select(lambda j: GoodTracks(j).Select(lambda t: t.pt())))",
                   f"ds.Select(lambda e: e.{C}('A').Select(lambda j: GoodTracks(j).Where(lambda t: t.pt() > 5.0).Count()))",
                   f"ds.SelectMany(lambda e: e.{C}('A')).Select(lambda j: (GoodTracks(j).Count(), Doubled(j, 2.0).Sum(), j.pt()))",
                   f"ds.Select(lambda e: e.{C}('A').Select(lambda j: Doubled(j, 0.5).Select(lambda v: v + 1.0)))",
+                  f"ds.Select(lambda e: e.{C}('A').Select(lambda j: PairColl(j).Select(lambda p: p.second)))",
+                  f"ds.SelectMany(lambda e: e.{C}('A')).Select(lambda j: (PairColl(j).Count(), PairColl(j).Select(lambda p: p.second).Sum()))",
                   f"ds.Select(lambda e: e.{C}('A').Where(lambda j: GoodTracks(j).Count() > 0).Select(lambda j: GoodTracks(j).First().eta()))"):
             cases.append(diff.Case(backend, q, evs, diff.members_used(s, q) + coll_fns, tag={"builtin": True, "method": False, "collection_function": True}, extra_globals=cg))
         # ONE method-style function at several call sites with different receivers (nested and sibling lambdas)
@@ -365,7 +377,10 @@ def run(ctx: Ctx) -> int:
              "instance_object": "X"}
         for name, tmpl, _ in REFUSALS:
             q = f"ds.SelectMany(lambda e: e.{C}('A')).Select(lambda j: {tmpl.format(F='TwoArg', M='OneArgM')})"
-            full = diff.attach_metadata(q, [F, M])
+            if "getAttributeFloat" in q and backend != "atlas":
+                continue
+            IO = {"metadata_type": "add_cpp_function", "name": "IOnly", "include_files": [], "arguments": ["f"], "code": ["auto result = f * 1000.0;"], "return_type": "double", "instance_object": "X"}
+            full = diff.attach_metadata(q, [F, M, IO])
             reqs.append({"args": {"backend": backend, "query": full, "out": str(ctx.scratch / f"ref{len(reqs)}")}})
             meta.append((backend, name, q))
     for (backend, name, q), r in zip(meta, run_batch(reqs, ctx.scratch)):
